@@ -18,9 +18,17 @@ def lex_tokens(text):
     out = []
     i = 0
     n = len(text)
+    in_define = False      # a `define directive extends to the end of its (continued) line: the line end is part of the token stream
     while i < n:
         c = text[i]
         if c in ' \t\n\r\x0b\x0c':
+            if c == '\n' and in_define:
+                k = i - 1
+                if k >= 0 and text[k] == '\r':
+                    k -= 1
+                if not (k >= 0 and text[k] == '\\'):
+                    out.append(('eol', '<end of `define line>'))
+                    in_define = False
             i += 1
             continue
         if text.startswith('//', i):
@@ -65,10 +73,14 @@ def lex_tokens(text):
             while j < n and (text[j].isalnum() or text[j] in '_$'):
                 j += 1
             out.append(('word', text[i:j]))
+            if text[i:j] == '`define':
+                in_define = True
             i = j
             continue
         out.append(('sym', c))
         i += 1
+    if in_define:
+        out.append(('eol', '<end of `define line>'))
     return out
 
 
@@ -82,7 +94,7 @@ def ref_tokens(toks):
         parts.append(t.text)
         if getattr(t, 'glue', False):
             continue
-        parts.append('\n' if '//' in t.text else ' ')
+        parts.append('\n' if ('//' in t.text or t.text.startswith('`define')) else ' ')
     return tokens_of(''.join(parts))
 
 
